@@ -16,9 +16,6 @@ open VtlModel.Gen.Effects
 /-- node ids of the API parameters (parameters annotated with immutable types only have no node) -/
 def srcIds : List Nat := sources.filterMap (fun e => e.2.2)
 
-/-- nodes found by the search from all API parameters together -/
-def closure : List Nat := reachableFrom graph srcIds
-
 def keyOf (m : Nat) : Option String := (siteKeys.find? (fun p => p.1 == m)).map (fun p => p.2)
 
 /-- the mutation sites that were reachable when this file was written (hand-written; each one is a
@@ -30,10 +27,17 @@ def knownSites : List String :=
     "files/parser/__init__.py:_validate_pandas:store:data[name] = …",
     "files/parser/__init__.py:_validate_pandas:store:data[comp_name] = …" ]
 
+/-- the (api function, parameter) pairs from which a known site was reachable (hand-written) -/
+def knownDirtyParams : List (String × String) := [("run", "datapoints"), ("validate_dataset", "datapoints")]
+
 def isKnown (m : Nat) : Bool :=
   match keyOf m with
   | some k => knownSites.contains k
   | none => false
+
+/-- node ids of the parameters that are not in `knownDirtyParams` -/
+def cleanSrcIds : List Nat :=
+  sources.filterMap (fun e => if knownDirtyParams.contains (e.1, e.2.1) then none else e.2.2)
 
 /-- the full statement: no in-place mutation site is reachable from any parameter of any public API function -/
 def NoArgMutation : Prop :=
@@ -43,66 +47,56 @@ def NoArgMutation : Prop :=
     the forward closure of the API parameters; this re-checks that nothing points outside) -/
 theorem graph_closed : wellFormed graph = true := by decide +kernel
 
-/-- the searched node set contains every API parameter and is closed under successors -/
-theorem closure_closed : closed graph closure = true ∧ srcIds.all (fun s => closure.contains s) = true := by
-  decide +kernel
-
 theorem src_mem (e : String × String × Option Nat) (he : e ∈ sources) (id : Nat) (h : e.2.2 = some id) :
-    id ∈ closure := by
-  have h1 : id ∈ srcIds := by
-    unfold srcIds
-    rw [List.mem_filterMap]
-    exact ⟨e, he, h⟩
-  have h2 := closure_closed.2
-  rw [List.all_eq_true] at h2
-  simpa using h2 id h1
+    id ∈ srcIds := by
+  unfold srcIds
+  rw [List.mem_filterMap]
+  exact ⟨e, he, h⟩
 
 /-- partial: from every parameter of every public API function, along every path of the graph, the only
     in-place mutation sites that can be reached are the known ones -/
 theorem no_arg_mutation_partial :
     ∀ e ∈ sources, ∀ id, e.2.2 = some id → ∀ m, Reaches graph id m → m ∈ mutationSites → isKnown m = true := by
   intro e he id hid m hr hm
-  have hmem : m ∈ closure := mem_of_reaches_closed graph closure closure_closed.1 id m (src_mem e he id hid) hr
-  have hall : closure.all (fun m => !mutationSites.contains m || isKnown m) = true := by decide +kernel
-  rw [List.all_eq_true] at hall
-  have := hall m hmem
-  have hc : mutationSites.contains m = true := by simpa using hm
-  simpa [hc] using this
+  have hall : allReached graph srcIds mutationSites isKnown = true := by decide +kernel
+  exact allReached_spec graph srcIds mutationSites _ hall id m (src_mem e he id hid) hm hr
 
-/-- Bool form of "some mutation site is found from some API parameter" -/
-def counterFound : Bool :=
-  sources.any (fun e => match e.2.2 with
-    | some id => mutationSites.any (fun m => (reachable graph id).contains m)
-    | none => false)
-
-theorem counter_of_found (h : counterFound = true) :
-    ∃ e ∈ sources, ∃ id m, e.2.2 = some id ∧ m ∈ mutationSites ∧ Reaches graph id m := by
-  unfold counterFound at h
-  rw [List.any_eq_true] at h
-  obtain ⟨e, he, h⟩ := h
-  cases hid : e.2.2 with
-  | none => rw [hid] at h; cases h
-  | some id =>
-    rw [hid] at h
-    simp only [List.any_eq_true] at h
-    obtain ⟨m, hm, hc⟩ := h
-    have hc' : m ∈ reachable graph id := by simpa using hc
-    exact ⟨e, he, id, m, rfl, hm, reaches_of_mem_reachable graph id m hc'⟩
+/-- partial, per parameter: apart from the known dirty parameters (`datapoints` of `run` and of
+    `validate_dataset`), NO parameter of any of the six functions reaches any mutation site -/
+theorem no_arg_mutation_except_known_params :
+    ∀ e ∈ sources, (e.1, e.2.1) ∉ knownDirtyParams → ∀ id, e.2.2 = some id →
+      ∀ m ∈ mutationSites, ¬ Reaches graph id m := by
+  intro e he hk id hid m hm hr
+  have hall : allReached graph cleanSrcIds mutationSites (fun _ => false) = true := by decide +kernel
+  have hmem : id ∈ cleanSrcIds := by
+    unfold cleanSrcIds
+    rw [List.mem_filterMap]
+    refine ⟨e, he, ?_⟩
+    have hf : knownDirtyParams.contains (e.1, e.2.1) = false := by
+      cases hc : knownDirtyParams.contains (e.1, e.2.1) with
+      | false => rfl
+      | true => exact absurd (by simpa using hc) hk
+    rw [hf]; simpa using hid
+  have := allReached_spec graph cleanSrcIds mutationSites _ hall id m hmem hm hr
+  cases this
 
 /-- full strength — or a concrete reachable mutation site (the check asks the driver which parameter reaches
     which site along which path, and replays that call on the real code) -/
 theorem no_arg_mutation_full_or_counter :
     NoArgMutation ∨ (∃ e ∈ sources, ∃ id m, e.2.2 = some id ∧ m ∈ mutationSites ∧ Reaches graph id m) := by
   first
-    | exact Or.inr (counter_of_found (by decide +kernel))
+    | (right
+       have h : someReached graph srcIds mutationSites = true := by decide +kernel
+       obtain ⟨s, hs, m, hm, hr⟩ := someReached_spec graph srcIds mutationSites h
+       unfold srcIds at hs
+       rw [List.mem_filterMap] at hs
+       obtain ⟨e, he, hid⟩ := hs
+       exact ⟨e, he, s, m, hid, hm, hr⟩)
     | (left
        intro e he id hid m hm hr
-       have hmem : m ∈ closure := mem_of_reaches_closed graph closure closure_closed.1 id m (src_mem e he id hid) hr
-       have hall : closure.all (fun m => !mutationSites.contains m) = true := by decide +kernel
-       rw [List.all_eq_true] at hall
-       have := hall m hmem
-       have hc : mutationSites.contains m = true := by simpa using hm
-       simp [hc] at this)
+       have hall : allReached graph srcIds mutationSites (fun _ => false) = true := by decide +kernel
+       have := allReached_spec graph srcIds mutationSites _ hall id m (src_mem e he id hid) hm hr
+       cases this)
 
 /-- the six public API functions are all present among the sources -/
 theorem all_six_apis_covered :
@@ -110,6 +104,7 @@ theorem all_six_apis_covered :
       sources.any (fun e => e.1 == a) = true := by decide +kernel
 
 /-! ### non-vacuity: the graph is not trivially disconnected -/
-example : (closure.length > srcIds.length) = true := by decide +kernel
+example : (closureOf graph srcIds).isSome = true := by decide +kernel
+example : (graph.length > srcIds.length) = true := by decide +kernel
 
 end VtlModel.C22
